@@ -37,7 +37,8 @@ def main(tier, rep):
     def models():
         try:
             box["conn"] = connmodel.tlc_run(rep, tier, False, pooled=True, idle=1)
-            box["pool"] = pool_model_tlc(rep, tier)
+            # (quick: the pool model too; thorough: that one is run configuration by configuration later, for memory)
+            box["pool"] = list(pool_model_tlc(rep, tier)) if tier == "quick" else None
         except BaseException as e:   # noqa
             box["err"] = e
     th = threading.Thread(target=models)
@@ -154,7 +155,8 @@ def main(tier, rep):
 
 
 def pool_model_tlc(rep, tier):
-    """the TLC part of pool_model(): [(max_size, idle, exported rows)], and the sanity run of the LIFO variant"""
+    """the TLC part of pool_model(): yields (max_size, idle, TLC result, exported rows) configuration by configuration, after
+    the sanity run of the LIFO variant"""
     from lib import tlc
     depth = 7 if tier == "quick" else 9
 
@@ -167,13 +169,11 @@ def pool_model_tlc(rep, tier):
         raise common.MachineryError(r.error)
     if r.ok:
         raise common.MachineryError("vacuous pool model: the LIFO variant satisfies the contract")
-    out = []
     for ms, idle in (((2, 5), (3, 5), (2, 0), (2, 1)) if tier == "quick" else ((2, 5), (3, 5), (1, 5), (2, 0), (2, 3), (2, 1), (3, 1))):
         r = tlc.run("PoolSeq", cfg_text=cfg(ms, idle), workers=16, timeout=3000)
         if r.error:
             raise common.MachineryError(r.error)
-        out.append((ms, idle, r, r.json_lines("EXP")))
-    return out
+        yield ms, idle, r, r.json_lines("EXP")
 
 
 def pool_model(rep, tier, pre=None):
@@ -181,39 +181,44 @@ def pool_model(rep, tier, pre=None):
     sequence up to Depth (state-deduplicated), checks the contract and the books, and exports a state-covering set of behaviours
     with the events it predicts; each is replayed on the real ObjectPool: TLC validates the recorded trace, and a trace that
     differs from the prediction although the contract accepts it is MODEL-DRIFT.  With Lifo = TRUE (a seeded defect) the model
-    must violate the contract."""
+    must violate the contract.  One configuration at a time (the thorough tier exports more than fits in memory at once)."""
     from pymemcache import pool as P
     from lib import tlc
-    traces, predicted = [], []
-    for ms, idle, r, rows in (pre or pool_model_tlc(rep, tier)):
+    total = 0
+    for ms, idle, r, rows in (pre if pre is not None else pool_model_tlc(rep, tier)):
         if not r.ok:
             rep.violation(f"C09/model/PoolSeq/max{ms}-idle{idle}/" + ",".join(r.invariants_violated),
                           "as-coded sequential pool model violates the contract", tlc.first_error_trace(r))
         rep.add("states", r.distinct)
         rep.add("transitions", r.generated)
         rep.add("pool_model_behaviours_exported", len(rows))
+        traces, predicted = [], []
         for ri, row in enumerate(rows):
             # model time units are whole numbers; on the real pool they are seconds, or half seconds (idle_timeout 2.5 / 1.5 s)
             scale = 0.5 if (idle and ri % 3 == 0) else 1
             ev = run_pool_seq(P, row["seq"], ms, idle, scale=scale)
             traces.append({"h": {"max": ms, "idle": idle, "maxrej": 3}, "ev": ev, "seq": row["seq"], "scale": scale})
             predicted.append(row["ev"])
-    if len(traces) < 500:
-        raise common.MachineryError("vacuous export from PoolSeq: %d behaviours" % len(traces))
-    acc, rej, st, _ = tlc.validate_traces("PoolTrace", [{"h": t["h"], "ev": t["ev"]} for t in traces], chunk=5000)
-    rep.add("traces_validated_against_impl", len(traces))
-    rep.add("trace_states", st)
-    for i, lst in sorted(rej.items()):
-        t = traces[i]
-        pos, clauses = lst[0]
-        cl = ",".join(sorted(x.strip().strip('"') for x in clauses.strip("{}").split(",")))
-        rep.violation(f"C09/pool-level/{cl}", f"ObjectPool(max={t['h']['max']}, idle_timeout={t['h']['idle']}) model behaviour {t['seq']}: "
-                      f"event {pos} {t['ev'][pos - 1]} rejected: {cl}", {"seq": t["seq"], "header": t["h"], "events": t["ev"]})
-    for i, t in enumerate(traces):
-        if i in acc and t["ev"] != predicted[i]:
-            rep.model_drift("the real ObjectPool's trace differs from the as-coded model's prediction but satisfies the contract",
-                            {"seq": t["seq"], "header": t["h"], "events": t["ev"][:40], "model": predicted[i][:40]})
-    return len(traces)
+        del rows
+        total += len(traces)
+        if not traces:
+            continue
+        acc, rej, st, _ = tlc.validate_traces("PoolTrace", [{"h": t["h"], "ev": t["ev"]} for t in traces], chunk=5000)
+        rep.add("traces_validated_against_impl", len(traces))
+        rep.add("trace_states", st)
+        for i, lst in sorted(rej.items()):
+            t = traces[i]
+            pos, clauses = lst[0]
+            cl = ",".join(sorted(x.strip().strip('"') for x in clauses.strip("{}").split(",")))
+            rep.violation(f"C09/pool-level/{cl}", f"ObjectPool(max={t['h']['max']}, idle_timeout={t['h']['idle']}) model behaviour {t['seq']}: "
+                          f"event {pos} {t['ev'][pos - 1]} rejected: {cl}", {"seq": t["seq"], "header": t["h"], "events": t["ev"]})
+        for i, t in enumerate(traces):
+            if i in acc and t["ev"] != predicted[i]:
+                rep.model_drift("the real ObjectPool's trace differs from the as-coded model's prediction but satisfies the contract",
+                                {"seq": t["seq"], "header": t["h"], "events": t["ev"][:40], "model": predicted[i][:40]})
+    if total < 500:
+        raise common.MachineryError("vacuous export from PoolSeq: %d behaviours" % total)
+    return total
 
 
 def run_pool_seq(P, seq, maxsize, idle, scale=1):
